@@ -253,6 +253,10 @@ impl MemoryChunk {
         if alignment < 4 {
             return Err(ZiporaError::invalid_data("alignment must be at least 4"));
         }
+        // Blocks are addressed by 32-bit offsets (`MemOffset`, u32::MAX = null)
+        if capacity > u32::MAX as usize {
+            return Err(ZiporaError::invalid_data("capacity exceeds the 32-bit offset range"));
+        }
         let layout = Layout::from_size_align(capacity, alignment)
             .map_err(|_| ZiporaError::invalid_data("Invalid memory layout"))?;
         
